@@ -25,9 +25,14 @@ if [ "$r1" -eq 0 ] && [ "$r2" -ne 0 ] && [ "$rs" -eq 0 ]; then
   cp "$src/patch.diff" "$src/demo.c" "$root/seeded/$name/"
   cp "$src/README.txt" "$root/seeded/$name/README.txt" 2>/dev/null
   python3 - "$root/seeded/$name/meta.json" "$prop" "$r1" "$r2" "$suite" <<'PY'
-import json,sys
+import json,sys,os,re
+rd=os.path.join(os.path.dirname(sys.argv[1]),"README.txt")
+txt=open(rd,errors="replace").read() if os.path.exists(rd) else ""
+paras=re.split(r"\n\s*\n",txt)
+need=[p.strip() for p in paras if re.search(r"manifest|NEEDED|Needs|needs", p)]
 json.dump({"property": sys.argv[2], "source": "independent sub-agent given only the property text and a scratch worktree",
-           "needs_to_manifest": "see README.txt", "verified": {"demo_exit_original": int(sys.argv[3]), "demo_exit_changed": int(sys.argv[4]), "suite_with_change": sys.argv[5]},
+           "what_it_is": re.sub(r"\s+"," ",paras[0].strip())[:400] if paras else "",
+           "needs_to_manifest": (re.sub(r"\s+"," ",need[0])[:700] if need else "see README.txt"), "verified": {"demo_exit_original": int(sys.argv[3]), "demo_exit_changed": int(sys.argv[4]), "suite_with_change": sys.argv[5]},
            "commands": ["tools/verify_seeded.sh (fresh worktree of /repo HEAD: make; demo; git apply patch.diff; make; demo; make check)", "tools/run_seeded.py <name>"]},
           open(sys.argv[1], "w"), indent=1)
 PY
